@@ -6,6 +6,7 @@ From Coq Require Import String.
 From PV Require Import Common.Util Gen.BindConsts.
 From PV Require Import Interp.Bind Interp.BindCheck Proofs.InterpBind.
 From PV Require Import Interp.Scope Interp.ScopeCheck Proofs.InterpScope.
+From PV Require Import Interp.Closure Interp.ClosureCheck Proofs.InterpClosure.
 
 (* ---------------------------------------------------------------------------------------------------------------
    Core 1 — argument binding.
@@ -90,11 +91,57 @@ Proof. exact scase_model_implies_spec. Qed.
 Print Assumptions C03_scope_model_implies_spec.
 
 (* ---------------------------------------------------------------------------------------------------------------
-   NOT proved (full statement of the remaining part of C03, kept visible):
-     for every program CPython accepts, built from nested function definitions (any depth), global/nonlocal
-     declarations, closures (also captured in loops), recursion, user decorators, defaults evaluated once, classes
-     with methods and @pyscript_compile functions, running it under AstEval gives the same results and the same
-     TypeError / NameError-family outcomes as running it under CPython.
-   The run-time part (EvalLocalVar cells, sym_table_stack search in resolve_nonlocals, ast_classdef, bound methods,
-   native compilation) has no Gallina model here; stream "funcs" compares the real AstEval with CPython on generated
-   programs (search only).  It already refutes the statement: findings D13, D35-D39 (see notes/C03.md). *)
+   Core 3 — closures at run time (partial).
+   Mini language of nested definitions (Interp/Closure.v): assignments, reads, +, tr(), conditional expressions, calls,
+   return, def with global/nonlocal header.  One evaluator skeleton, two scoping policies: pyscript's layout
+   (resolve_nonlocals searching the run-time symbol-table stack for EvalLocalVar cells at `def` time, EvalFunc.call sharing
+   captured cells and creating own cells at call time, ast_name / recurse_assign lookup order) against flat lexical closures
+   with static name classification.
+
+   FULL STATEMENT (not proved): for every program of the fragment — declarations first, every variable assigned before
+   the first nested def of its function, names of module globals never used as function locals, nonlocal names bound in the
+   immediately enclosing function or mentioned by it, no enclosing variable named like a parameter of a nested function —
+   and all fuel: the same trace of tracer calls, the same result / exception class, the same final globals as Python.
+   PROVED: the same conclusion for every program (no syntactic restriction) and all fuel whose *strict* pyscript run does not
+   stop with an anomaly; the strict run stops exactly at the events where the layouts part: a cell found only further up
+   the call stack (D300), a captured cell still unassigned when the inner function is called (D301), var_names differing
+   from the free variables on a visible name (D38b, and the harmless extra capture of a variable named like a nested
+   function's parameter), the two static analyses or internal consistency checks failing (never observed).
+   MISSING for the full statement: (1) that the syntactic fragment implies "no anomaly" (a store invariant: every cell
+   reachable from a closure is assigned when the closure is called); (2) that the strict run equals the loose run, which
+   is what mirrors the code when no event occurs; (3) an equivalence up to unused captured cells.  (2) is evaluated on
+   every generated case by the correspondence (stream closure), (1) holds on all generated fragment programs.  The
+   evaluation skeleton (order of evaluation, call protocol) is shared by both sides here; it is C01's subject. *)
+Theorem C03_closure_equiv_partial : forall cfg fuel prog,
+  (forall k, ps_run cfg true fuel prog <> Anomaly k) ->
+  py_run fuel prog = ps_run cfg true fuel prog.
+Proof. exact closure_equiv. Qed.
+Print Assumptions C03_closure_equiv_partial.
+
+Theorem C03_closure_observed_partial : forall cfg fuel prog,
+  (forall k, ps_run cfg true fuel prog <> Anomaly k) ->
+  observe (py_run fuel prog) = observe (ps_run cfg true fuel prog).
+Proof. exact closure_equiv_observed. Qed.
+Print Assumptions C03_closure_observed_partial.
+
+(* the static pass both policies start from is the one of C03_locals *)
+Theorem C03_closure_locals_bridge : forall cfg d,
+  s_all_off cfg -> forallb wf_top (nodes_of d) = true -> forallb supported (nodes_of d) = true ->
+  ps_locals_list cfg d = py_locals_list d.
+Proof. exact locals_bridge. Qed.
+Print Assumptions C03_closure_locals_bridge.
+
+(* today's code parts from Python at exactly those events (loose run vs reference; witnesses replayed on the real code) *)
+Theorem C03_closure_refuted_D300 :
+  observe (ps_run sdev_off false 50 prog_D300) <> observe (py_run 50 prog_D300) /\ ps_run sdev_off true 50 prog_D300 = Anomaly 1.
+Proof. exact closure_refuted_D300. Qed.
+Print Assumptions C03_closure_refuted_D300.
+Theorem C03_closure_refuted_D301 :
+  observe (ps_run sdev_off false 50 prog_D301) <> observe (py_run 50 prog_D301) /\ ps_run sdev_off true 50 prog_D301 = Anomaly 2.
+Proof. exact closure_refuted_D301. Qed.
+Print Assumptions C03_closure_refuted_D301.
+
+(* ---------------------------------------------------------------------------------------------------------------
+   NOT modelled: defaults/decorators evaluated once, user decorators, classes and bound methods, native compilation
+   (@pyscript_compile, lambda), calls across files: stream "funcs" compares the real AstEval with CPython on generated
+   programs (search only); it refutes "like Python" there already: findings D13, D35-D39 (notes/C03.md). *)
